@@ -14,6 +14,10 @@ Space (every member is visited, nothing sampled)
             {None, set(), [], (), {SPACE}, {COMMENT}, [SPACE, COMMENT]}; tokenizer with SPACE and COMMENT
             groups, blanks and comments written explicitly into the texts.  The leaves must be the tokens
             that are not skipped as configured (an explicit empty collection skips nothing).
+  span    : tokenizer with a non-skipped multi-line span token TEXT (<<...>>, constructor argument
+            span_matchers) and six tiny grammars over a / TEXT; the token values run over all strings of
+            <= 2 pieces of {p, blank, newline, form feed, \x0b, \x1c-\x1e, \x85, U+2028, U+2029, lone \r}:
+            the leaf value must be the value the harness put between the marks.
   diverge : directed family "three alternatives with one first symbol, non-monotone divergence"
             (models.grammar.family_diverge), all six orders.
   prefix  : directed family for factorization (models.grammar.family_prefix): common prefixes of length
@@ -71,25 +75,41 @@ REQUIRED_FEATURES = ["grammar:nullable", "grammar:ambiguous-table", "grammar:com
                      "sequence:re-entered-inside-earlier-span-after-rollback",
                      "config:skip_tokens-empty", "config:skip_tokens-None", "config:skip_tokens-SPACE",
                      "config:skip_tokens-empty:tree-with-blank-or-comment-leaf",
-                     "grammar:non-monotone-divergence-in-a-group"]
+                     "grammar:non-monotone-divergence-in-a-group",
+                     "span:multi-line-value-among-the-leaves",
+                     "span:value-with-exotic-line-boundary-character"]
 
 _SPACES = {
     # (kind, non-terminals, cfg key, max_alts, max_len, max_size, input length, shards)
     "quick": [("sized", "EA", "ab", 2, 2, 5, 4, 32), ("sized", "EAB", "a", 2, 2, 5, 4, 32),
               ("sized", "EA", "kw", 2, 2, 4, 3, 16), ("prefix", "EA", "ab", 0, 0, 0, 4, 48),
               ("split", "EA", "ab", 0, 0, 0, 4, 8), ("seq", "EWA", "wvxy", 0, 0, 0, 3, 24),
-              ("blank", "EA", "blank", 2, 2, 4, 3, 16), ("diverge", "EA", "pabcdxy", 0, 0, 0, 3, 8)],
+              ("blank", "EA", "blank", 2, 2, 4, 3, 16), ("diverge", "EA", "pabcdxy", 0, 0, 0, 3, 8),
+              ("span", "EA", "span", 0, 0, 0, 2, 6)],
     "thorough": [("sized", "EA", "ab", 3, 3, 6, 5, 64), ("sized", "EA", "ab", 3, 3, 7, 4, 200),
                  ("sized", "EAB", "a", 2, 3, 6, 5, 64), ("sized", "EAB", "ab", 2, 2, 5, 4, 48),
                  ("sized", "EA", "kw", 2, 2, 5, 3, 48), ("prefix", "EA", "ab", 0, 0, 0, 5, 64),
                  ("split", "EA", "ab", 0, 0, 0, 5, 16), ("seq", "EWA", "wvxy", 0, 0, 0, 5, 48),
-                 ("blank", "EA", "blank", 2, 2, 5, 5, 48), ("diverge", "EA", "pabcdxy", 0, 0, 0, 4, 24)],
+                 ("blank", "EA", "blank", 2, 2, 5, 5, 48), ("diverge", "EA", "pabcdxy", 0, 0, 0, 4, 24),
+                 ("span", "EA", "span", 0, 0, 0, 3, 6)],
 }
 # the prefix family is enumerated completely in both tiers; the tiers differ in its input length only
 
 
 def _cfg(key):
     return G.cfg_from_key(key)
+
+
+def _span_inputs(cfg, L):
+    """All token strings of length <= 2 over the whole menu (a, every TEXT value) and, for L = 3, the
+    strings of three tokens with exactly one TEXT."""
+    out = G.all_inputs(cfg, min(L, 2))
+    if L >= 3:
+        texts = [t for t in cfg.tokens if t[0] == "TEXT"]
+        a = ("a", "a")
+        for t in texts:
+            out += [(t, a, a), (a, t, a), (a, a, t)]
+    return out
 
 
 def _skip_options(tier):
@@ -101,7 +121,12 @@ def bounds(tier):
     out = []
     for kind, nts, key, ma, ml, ms, L, _ in _SPACES[tier]:
         cfg = _cfg(key)
-        if kind == "seq":
+        if kind == "span":
+            out.append({"space": "span-token family: non-skipped multi-line token TEXT <<...>> (span_matchers)",
+                        "grammars": len(G.family_span()), "token_values": len(G.span_bodies()),
+                        "value_alphabet": ["p", " ", "\\n"] + [repr(c)[1:-1] for c in G.EXOTIC_LINE_ENDS],
+                        "input_len_max": L, "inputs_per_mode": len(_span_inputs(cfg, L))})
+        elif kind == "seq":
             out.append({"space": "sequence-under-roll-back family (ProdSequence symbols)",
                         "grammars": sum(1 for _ in G.family_seq(cfg.terms)), "input_len_max": L,
                         "inputs_per_mode": len(G.all_inputs(cfg, L))})
@@ -230,6 +255,13 @@ def check_grammar(cfg, start, prods, inputs, acc, modes=(True, False), overrides
                     bad = G.validate_tree(root, pm, terms, root_symbol, expected, seqs)
                     shape = None
                     try:
+                        if cfg.key == "span":
+                            vals = "".join(v for n, v in toks if n == "TEXT")
+                            if "\n" in vals:
+                                feats.add("span:multi-line-value-among-the-leaves")
+                            if any(c in vals for c in G.EXOTIC_LINE_ENDS):
+                                feats.add("span:value-with-exotic-line-boundary-character")
+                                acc.note_sum("trees_with_exotic_line_boundary_in_a_span_value")
                         if seqs and mon.rollbacks:
                             feats.add("sequence:tree-after-rollback")
                             if mon.sequence_reentered_after_rollback():
@@ -295,6 +327,8 @@ def _grammars(tier, shard):
     elif kind == "blank":
         # grammar terminals: the letter and SPACE (COMMENT only occurs in texts)
         gen = G.enum_sized(tuple(nts), ("a", "SPACE"), ma, ml, ms, (k, K))
+    elif kind == "span":
+        return cfg, _span_inputs(cfg, L), (g for j, g in enumerate(G.family_span(tuple(nts))) if j % K == k)
     elif kind == "seq":
         gen = (g for j, g in enumerate(G.family_seq(cfg.terms, tuple(nts))) if j % K == k)
     elif kind == "diverge":
